@@ -35,6 +35,10 @@ CHECKS = {
          "CAPI.tla: handles and the mirrored C++ object as a state machine (null/live/freed, tan(beta) set or not, THDM built with a valid or out-of-range enum, spectrum calculated); all call sequences over 28 action classes are explored to depth 8 (NeverAborts holds with exception-tight wrappers; the unchanged tree's protection table violates it - model-level reproduction of K6); TLC simulates call histories of depth 40 which are concretised (random function of each class, finite and non-finite values, buffer lengths 0..64, NULL arguments) and replayed on a C handle and a mirrored C++ object in a forked child of the ASan+UBSan build; Trace_C17.tla checks per call: bit-for-bit agreement with the mirror, NaN / error code for a throwing mirror, get(set(x)) = x, bounded and terminated string getters, and per sequence that the process survived",
          "use-after-free, out-of-range indices and enum values outside the enumeration's value range 0..7 (whose load is UB in C++) are outside the alphabet; trusted: the C -> C++ correspondence table of the driver (from the header documentation), fork/waitpid observation, TLC",
          "TLC model checking + simulation of CAPI.tla; TLA+ trace validation (Trace_C17.tla) of C-API call sequences replayed against a C++ mirror under sanitizers", "DESIGN 5/C17"),
+ "C19": ("model_checking",
+         "Purity.tla: each API function as a process Begin -> (CopyModel -> MutateCopy)? -> Read -> End with read set (the caller's model) and write set (its own copy only); all interleavings of the threads' micro-steps are model-checked for NoConflict, SharedUnchanged, Pure and Deterministic; the variants 'function-static cache' and 'convert the caller's model in place and restore' violate them (non-vacuity).  TLC-sampled schedules (2..16 threads) are replayed on identical objects sequentially, in reverse thread order and concurrently from a barrier with random yields, on the plain build and under ThreadSanitizer; Trace_C19.tla requires the bit-exact hash of the complete public state of every argument to be unchanged by const calls, the result bits to be a function of (model, operation, state hash) across phases/threads/orders, agreement on a copy, and no ThreadSanitizer report",
+         "race freedom is observed (TSan), not derived; interleavings are exhaustive only in the model (2 threads quick / 3 threads thorough, 2 operations each); trusted: state projection of the harness, TLC",
+         "TLC model checking of Purity.tla (all interleavings) + TLA+ trace validation (Trace_C19.tla) of sequential / permuted / concurrent replays incl. ThreadSanitizer", "DESIGN 5/C19"),
  "C18": ("exploration",
          "random MSSM/THDM models from TLC-enumerated classes; every recorded call of the uncertainty API is validated by TLC against the documented definitions (floor, sums, overload agreement) in exact arithmetic",
          "sampling inside classes is not exhaustive; trusted: TLC, lossless double encoder, class generators",
